@@ -94,6 +94,13 @@ def class_table(cls):
             "members": [[n, dump(m.value)] for n, m in cls.__members__.items()],
             "custom_missing": "_missing_" in cls.__dict__,
         }
+        if info["enum"]["custom_missing"] and issubclass(cls, int):
+            # probe the live class: does a pseudo member made by _missing_ keep its integer value?
+            probe = next(v for v in range(200, 100000) if v not in {m.value for m in cls})
+            try:
+                info["enum"]["missing_keeps_int"] = int(cls(probe)) == probe
+            except Exception:
+                info["enum"]["missing_keeps_int"] = True
     if issubclass(cls, tuple) and hasattr(cls, "_fields"):
         info["namedtuple"] = {
             "fields": list(cls._fields),
